@@ -1242,8 +1242,11 @@ def inline_calls(crate, body, pred, depth=3, _stack=()):
             continue
         c = t["callee"]
         callee = crate.bodies.get(c.get("resolved")) or crate.bodies.get(c.get("path"))
-        if callee is None or callee.name in rec or callee.name == body.name or callee.name in _stack or callee.kind == "promoted":
+        if callee is None or callee.name == body.name or callee.name in _stack or callee.kind == "promoted":
             continue
+        if callee.name in rec and (len([x for x in callee.blocks if not x["cleanup"]]) > 16 or callee.loops() or
+                                   any(c.node["callee"].get("path") == callee.name for c in callee.calls())):
+            continue    # members of a recursion cycle are only looked through when they are small loop-free wrappers
         if not pred(callee, t):
             continue
         if t.get("t") is None and callee.return_blocks():
